@@ -100,6 +100,15 @@ theorem ecb_cs2_enc_refines (C : Cipher) (hC : C.Valid) (w : Nat) (m : Bytes) (h
 theorem ecb_cs3_enc_refines (C : Cipher) (hC : C.Valid) (w : Nat) (m : Bytes) (hm : C.bs ≤ m.length) :
     ecbCs3Enc false C w m = Spec.ecbCsEnc .cs3 C m := C05aux.ecb_cs_enc_refines .cs3 C hC w m hm
 
+/-- **CBC-CS1/2/3: decryption inverts encryption** (hence `dec ∘ enc = id` on the implementation mirror by
+    `cbc_cs_enc_refines`), every block size, every backend width (independently for the two directions),
+    every message length ≥ one block. -/
+theorem cbc_cs_dec_inverts (v : CsVariant) (C : Cipher) (hC : C.Valid) (w₁ w₂ : Nat) (iv m : Bytes)
+    (hiv : iv.length = C.bs) (hm : C.bs ≤ m.length) :
+    C05aux.implCbcDec v C w₂ iv (C05aux.implCbcEnc v C w₁ iv m) = m := by
+  rw [C05aux.cbc_cs_enc_refines v C hC w₁ iv m hiv hm]
+  exact C05aux.cbc_cs_dec_inverts v C hC w₂ iv m hiv hm
+
 /-- the legacy CS3 mirror does *not* satisfy the refinement at `L = bs` (see `legacy_cs3_one_block_defect`);
     non-vacuity of the hypotheses: the witness cipher is valid and `[5]` is a one-block message. -/
 example : inc.Valid ∧ inc.bs ≤ ([5] : Bytes).length := ⟨inc_valid, by decide⟩
